@@ -466,13 +466,22 @@ func (c20) Run(t *testing.T, tape *core.Tape, rcx *RunCtx) *core.Result {
 	leak, pv := core.Bubble(t, func() {
 		sim = core.NewSim(tape)
 		sim.Record = rcx.Record
-		sim.MaxSteps = 6*len(plain) + 6*len(damaged) + 20000
+		sim.MaxSteps = 400*len(plain) + 400*len(damaged) + 100000 // backstop only; liveness is judged by progress below
 		// liveness after the last byte: once the reader has returned EOF or its
 		// error, the parser owes at most the remaining entries and its errors;
 		// both channels must be closed within a bound linear in the number of
 		// entry elements of the stream.
 		recvBound := 10 * (bytes.Count(plain, []byte("<entry")) + 10)
 		sim.OnQuiesce = func() string {
+			// cumulative allowance: 20000 + 60 steps per byte handed over + 50 per Read call
+			// + 200 per delivered value (see C13)
+			consumed, reads := len(damaged), int64(0)
+			if rd != nil {
+				consumed, reads = rd.Consumed(), rd.Reads
+			}
+			if allowed := 20000 + 60*consumed + 50*int(reads) + 200*(len(gotE)+len(gotX)); sim.Steps > allowed {
+				return fmt.Sprintf("%d scheduler steps used, %d allowed for %d bytes handed over in %d reads and %d values delivered", sim.Steps, allowed, consumed, reads, len(gotE)+len(gotX))
+			}
 			if rd != nil && rd.Finished && recvAfterEnd > recvBound {
 				return fmt.Sprintf("the reader ended long ago and %d values were received since (bound %d) but the channels are not closed", recvAfterEnd, recvBound)
 			}
